@@ -25,8 +25,8 @@ type mask struct {
 	paths []string
 }
 
-func nilMask() mask               { return mask{isNil: true} }
-func pathsMask(p ...string) mask  { return mask{paths: append([]string{}, p...)} }
+func nilMask() mask              { return mask{isNil: true} }
+func pathsMask(p ...string) mask { return mask{paths: append([]string{}, p...)} }
 func (m mask) String() string {
 	if m.isNil {
 		return "nil"
@@ -563,9 +563,10 @@ func checkMerge(old, src, got proto.Message, M, W mask, sp spec) []finding {
 		return out
 	}
 
-	var touched []string
+	var touched, written []string
 	for _, rg := range sp.regions {
 		touched = append(touched, rg.path)
+		written = append(written, rg.path)
 	}
 	touched = append(touched, sp.reset...)
 
@@ -581,7 +582,7 @@ func checkMerge(old, src, got proto.Message, M, W mask, sp spec) []finding {
 				break
 			}
 		}
-		if inside || oneofExcused(md, l, fgot, touched) {
+		if inside || oneofExcused(md, l, fgot, written) {
 			continue
 		}
 		report("C05/frame/"+frameClass(l, M, W, fold, fgot, fsrc),
